@@ -188,6 +188,30 @@ CHECKS["C07"] = (
     "bounded-exhaustive input enumeration + scripted-environment "
     "enumeration + exhaustive operation-sequence search (depth 3)")
 
+CHECKS["C14"] = (
+    "4/C14",
+    "Bounded-exhaustive exploration of the prior classes: 28 Uniform bound "
+    "pairs (finite / half-infinite / improper) x guess options, Gaussian "
+    "and BoundedGaussian parameter alphabets over many decades, evaluation "
+    "points on, beside (1 ulp) and far from every bound; scripted "
+    "environment: the module-level random source used by the samplers is "
+    "replaced and every quantile answer and, for the bounded-Gaussian "
+    "rejection loop, every answer sequence with <= 3 out-of-support draws "
+    "is enumerated for sizes None/1/3/7; COMPLETE enumeration of all "
+    "operator expressions of depth <= 2 (270k) and comb-shaped depth 3 "
+    "(thorough) over priors and numbers with the six binary and three "
+    "unary operators incl. NumPy functions; ComplexPrior part "
+    "combinations; constructor rejections.  Closed-form densities / CDFs "
+    "as reference; a deterministic empirical-CDF distance under fixed "
+    "seeds backs the distribution statement.",
+    "Trusted: numpy's generator and special functions.  'Follow the "
+    "declared distribution' is decided structurally (family, parameters, "
+    "every scripted answer mapped into the support) plus ECDF under seeds "
+    "0..4; bushy depth-3 trees are not enumerated (reported as not "
+    "exhaustive in thorough).",
+    "bounded-exhaustive input + scripted-environment enumeration vs "
+    "closed-form reference model")
+
 NOT_YET = {}
 
 
